@@ -10,7 +10,7 @@ import numpy as np
 import z3
 
 from .. import irsym, sym
-from ..harness import mval, run_case
+from ..harness import mval, replay_pinned, run_case
 from ..runner import pmap
 from ..sym import SymInt, eng
 
@@ -337,6 +337,72 @@ def case_print(case):
                     key=str(case), max_paths=64)
 
 
+# ---------------------------------------------------------------- (5b) get_step_ops on a strided memref
+
+
+def case_strided_steps(case):
+    """get_step_ops(bound_ops, memref_value, in_bytes) for a layout built by from_strides from a memref with a
+    StridedLayoutAttr whose strides are only known at run time (extract_strided_metadata branch, as snax-copy-to-dma
+    calls it): the step of tile level k of such a dimension is run-time stride * element size * product of the
+    inner tile bounds."""
+    from xdsl.dialects import test
+    from xdsl.dialects.builtin import IntegerType, MemRefType, NoneAttr, StridedLayoutAttr
+    from xdsl.dialects.builtin import IndexType
+
+    from snaxc.dialects.tsl import TiledStridedLayoutAttr
+    from snaxc.ir.tsl.tiled_strided_layout import TiledStridedLayout
+
+    bounds, dyn_dims, elw, in_bytes = case
+    rank = len(bounds)
+    shape = [int(np.prod(b)) for b in bounds]
+    static = []
+    acc = 1
+    for d in reversed(range(rank)):
+        static.insert(0, acc)
+        acc *= shape[d]
+    strides = [None if d in dyn_dims else static[d] for d in range(rank)]
+
+    def fn():
+        E = eng()
+        mt = MemRefType(IntegerType(elw), shape, StridedLayoutAttr(strides, None))
+        src = test.TestOp(result_types=[mt])
+        attr = TiledStridedLayoutAttr(TiledStridedLayout.from_strides(strides, [list(b) for b in bounds], None))
+        shapes = [test.TestOp(result_types=[IndexType()]) for _ in bounds]
+        bops, bmap = attr.get_bound_ops(list(shapes))
+        sops, smap = attr.get_step_ops(bmap, src.res[0], in_bytes=in_bytes)
+        I = irsym.Interp(intmode=True)
+        for d, sh in enumerate(shapes):
+            I.set(sh.res[0], z3.IntVal(shape[d]))
+        S = [z3.Int(f"S{d}") for d in range(rank)]
+        for v in S:
+            E.assume(v >= 1)
+
+        def h_meta(I, op):
+            res = list(op.results)
+            I.set(res[0], irsym.Opaque("base_buffer"))
+            I.set(res[1], z3.Int("rt_offset"))
+            for d in range(rank):
+                I.set(res[2 + d], z3.IntVal(shape[d]))
+                I.set(res[2 + rank + d], S[d] if d in dyn_dims else z3.IntVal(static[d]))
+
+        I.handlers["memref.extract_strided_metadata"] = h_meta
+        for op in bops + sops:
+            I.run_op(op)
+        rs = {k: I.get(o.results[0]) for k, o in smap.items()}
+        el = elw // 8
+        E.oblige("strided_step_ops:keys", z3.BoolVal(sorted(rs) == sorted((d, k) for d, bd in enumerate(bounds) for k in range(len(bd)))))
+        for (d, k), v in rs.items():
+            inner = int(np.prod(bounds[d][k + 1:])) if bounds[d][k + 1:] else 1
+            if d in dyn_dims:
+                # the branch multiplies the run-time stride by the element size itself
+                E.oblige("strided_step_ops:dynamic_stride_times_inner_tile_sizes", v == S[d] * el * inner, dict(pos=(d, k), in_bytes=in_bytes))
+            else:
+                E.oblige("strided_step_ops:static_value", v == static[d] * inner * (el if in_bytes else 1), dict(pos=(d, k), in_bytes=in_bytes))
+        E.oblige("explored", True)
+
+    return run_case(fn, lambda f: replay_pinned(fn, f), signature=lambda f, v: f["name"], sample=dict(case=str(case)), key=str(case))
+
+
 # ---------------------------------------------------------------- (5) get_bound_ops / get_step_ops
 
 
@@ -644,6 +710,12 @@ def run(chk):
         cases = rnd.sample(cases, 120)
     if only in (None, "ops"):
         chk.add_results("bound_and_step_ops", pmap(case_ops, cases, chunks=2))
+        scases = []
+        for bounds in ([[4], [8]], [[2, 2], [8]], [[2, 2], [2, 4]], [[4], [2, 4]], [[2, 2, 2], [4]], [[3], [2, 2], [4]]):
+            for dyn in ({0}, {0, 1}) + (({1},) if len(bounds) > 1 else ()):
+                for elw in (8, 32):
+                    scases.append((bounds, frozenset(d for d in dyn if d < len(bounds)), elw, True))
+        chk.add_results("step_ops_on_strided_memref", pmap(case_strided_steps, scases, chunks=2))
     # subview
     cases = []
     for b in tile_structs(1, 2, (2, 4)) + tile_structs(2, 2, (2, 4))[:: (3 if quick else 1)]:
@@ -657,5 +729,5 @@ def run(chk):
         "rank > 4, tile depth > 3, tile bounds outside the enumerated set",
         "non-tile-aligned or static non-zero subview offsets in convert-memref-to-arith",
         "print/parse and numpy enumeration views for all layouts (representatives / concrete layouts only)",
-        "get_step_ops on memrefs with a StridedLayoutAttr (extract_strided_metadata branch) and in_bytes=True",
+        "get_step_ops on a strided memref with in_bytes=False (no caller; the branch scales by the element size regardless)",
     ]
